@@ -1,6 +1,10 @@
 package main
 
 import (
+	"path/filepath"
+	"io"
+	"errors"
+	"bytes"
 	"bufio"
 	"crypto/sha256"
 	"encoding/hex"
@@ -319,4 +323,142 @@ func detectAtNoSet(x []byte) (m *mimetype.MIME, panicked any) {
 		}
 	}()
 	return mimetype.Detect(x), nil
+}
+
+// ---- entry points agree ------------------------------------------------------------------------------------
+// The same (input, limit) through Detect, through DetectReader right after a reader detection made under a LARGER
+// limit on a longer input (recycled buffers / state must not leak), through a reader that hands out the last bytes
+// together with io.EOF, and (sampled) through DetectFile: all must answer like Detect on the exact header, must not
+// be nil, and a read error must come with the bare root.  Failures are reported under the running property when it
+// speaks about results at all, else under C05.
+var agreeDir string
+var agreeLong = bytes.Repeat([]byte("plain text line that fills the reader buffer, 0123456789 abcdefghijklmnopqrstuvwxyz\n"), 120)
+
+type dataEOFReader struct {
+	data []byte
+	off  int
+}
+
+func (r *dataEOFReader) Read(p []byte) (int, error) {
+	n := copy(p, r.data[r.off:])
+	r.off += n
+	if r.off >= len(r.data) {
+		return n, io.EOF
+	}
+	return n, nil
+}
+
+type failAfterReader struct {
+	data []byte
+	off  int
+	err  error
+}
+
+func (r *failAfterReader) Read(p []byte) (int, error) {
+	if r.off >= len(r.data) {
+		return 0, r.err
+	}
+	n := copy(p, r.data[r.off:])
+	if n > 7 {
+		n = 7
+	}
+	r.off += n
+	return n, nil
+}
+
+func (c *runCtx) agreeProp() string {
+	switch c.prop {
+	case "C01", "C02", "C03", "C04", "C05", "C07", "C08", "C09", "C10", "C11", "C12", "C13", "C17", "C18", "C19":
+		return c.prop
+	}
+	return "C05"
+}
+
+func (c *runCtx) agree(kind string, x []byte, limit uint32, withFile bool) {
+	prop := c.agreeProp()
+	exact := append(make([]byte, 0, len(header(x, limit))), header(x, limit)...)
+	d, pan := detectAt(exact, limit)
+	if pan != nil || d == nil {
+		return // reported by the caller's own checks
+	}
+	want := chainFull(d)
+	say := func(how, got string) {
+		c.propfail(prop, fmt.Sprintf("entry points disagree (%s): Detect on the examined header says %q, %s says %q; limit=%d kind=%s input=%s", how, want, how, got, limit, kind, hx(x[:min(len(x), 120)])))
+	}
+	res := func(m *mimetype.MIME, err error) string {
+		if m == nil {
+			return "NIL"
+		}
+		if err != nil {
+			return "ERR:" + chainFull(m)
+		}
+		return chainFull(m)
+	}
+	// Detect on the whole slice (the library truncates)
+	if m, pan := detectAt(x, limit); pan == nil && res(m, nil) != want {
+		say("Detect on the whole input", res(m, nil))
+	}
+	if limit > 1<<22 {
+		return // DetectReader allocates `limit` bytes: not the place to ask for gigabytes
+	}
+	// reader after a detection under a larger limit
+	big := limit*2 + 4096
+	if limit == 0 {
+		big = 8192
+	}
+	mimetype.SetLimit(big)
+	mimetype.DetectReader(bytes.NewReader(agreeLong))
+	mimetype.SetLimit(limit)
+	if m, err := mimetype.DetectReader(bytes.NewReader(x)); res(m, err) != want {
+		say("DetectReader after a reader detection under a larger limit", res(m, err))
+	}
+	if m, err := mimetype.DetectReader(&dataEOFReader{data: x}); res(m, err) != want {
+		say("DetectReader over a reader returning its last bytes together with io.EOF", res(m, err))
+	}
+	// the limit is changed by someone else while the reader is being read: the call must behave as one detection under
+	// the old or under the new limit - not as a mixture (a header cut for one limit judged under the other)
+	if limit > 0 && len(x) > int(limit) {
+		for _, to := range []uint32{0, limit*4 + 100} {
+			mimetype.SetLimit(limit)
+			m, err := mimetype.DetectReader(&limitFlipReader{data: append([]byte{}, x...), to: to})
+			got := res(m, err)
+			ex2 := append(make([]byte, 0, len(header(x, to))), header(x, to)...)
+			d2, _ := detectAt(ex2, to)
+			want2 := "NIL"
+			if d2 != nil {
+				want2 = chainFull(d2)
+			}
+			if got != want && got != want2 {
+				c.propfail(prop, fmt.Sprintf("the limit changed from %d to %d while DetectReader was reading: the result %q is neither the one for the old limit (%q) nor the one for the new limit (%q); kind=%s input=%s", limit, to, got, want, want2, kind, hx(x[:min(len(x), 120)])))
+			}
+		}
+		mimetype.SetLimit(limit)
+	}
+	// a failing reader: exactly the bare root, never nil, whatever the limit
+	if len(x) > 0 {
+		boom := errors.New("verif: injected read error")
+		cut := len(x) / 2
+		if limit > 0 && cut >= int(limit) {
+			cut = int(limit) - 1
+		}
+		if cut >= 0 {
+			m, err := mimetype.DetectReader(&failAfterReader{data: x[:cut], err: boom})
+			if m == nil || err == nil || m.String() != "application/octet-stream" || m.Parent() != nil {
+				c.propfail(prop, fmt.Sprintf("a read error before the header is complete must yield exactly application/octet-stream together with the error: got %s / err=%v; limit=%d failing after %d bytes of %s", res(m, nil), err, limit, cut, hx(x[:min(len(x), 80)])))
+			}
+		}
+	}
+	if withFile {
+		if agreeDir == "" {
+			agreeDir, _ = os.MkdirTemp("", "verif-agree-")
+		}
+		if agreeDir != "" {
+			p := filepath.Join(agreeDir, "f.bin")
+			if os.WriteFile(p, x, 0o644) == nil {
+				if m, err := mimetype.DetectFile(p); res(m, err) != want {
+					say("DetectFile", res(m, err))
+				}
+			}
+		}
+	}
 }
